@@ -289,9 +289,16 @@ func c09ListHistory(fg *value.FunctionGenerator, steps, first int) {
 
 func c09MapHistory(fg *value.FunctionGenerator, steps, first int) {
 	e0 := value.Int(sym.Int64("e0"))
-	kind := sym.Choice("parent", 4)
+	kind := sym.Choice("parent", 7)
 	var parent value.Value
 	switch kind {
+	case 4:
+		// results of + and of accept that dropped entries: entry slices with spare capacity
+		parent = eval(mustGen(fg, "{k:x}+{}", "x"), e0).v
+	case 5:
+		parent = eval(mustGen(fg, `{k:x,y9:1,z9:2}.accept((k,v)->k="k")`, "x"), e0).v
+	case 6:
+		parent = eval(mustGen(fg, `({j9:0}+{k:x}+{i9:1}).accept((k,v)->k="k")`, "x"), e0).v
 	case 0:
 		parent = value.NewMap(value.RealMap{"k": e0})
 	case 1:
